@@ -225,9 +225,6 @@ N_Crash(r) == [Cur EXCEPT !.up = [up EXCEPT ![r] = FALSE],
 \*   epoch-gap         the leader's log has no record of the follower's last
 \*                     epoch (the protocol returns no epoch, so the follower
 \*                     cannot see that its own tail is from a foreign epoch)
-\*   epoch-empty-start the next epoch started on an EMPTY log (start offset -1),
-\*                     which the lookup confuses with "no later epoch" and
-\*                     answers with the leader's newest offset
 \*   hw-fallback       leader unreachable: truncation to the local, lagging HW
 Reconcile(f, n, ecn, lf, ecf, reach) ==
   IF reach
@@ -238,9 +235,7 @@ Reconcile(f, n, ecn, lf, ecf, reach) ==
            cut == \E c \in committed : c.o >= ans + 1 /\ c.o < Len(lf) /\ lf[c.o + 1] = c.rec
            bad == cut \/ ~IsPrefixOf(after, log[n])
        IN <<after, TruncEc(ecf, ans + 1),
-            IF ~bad THEN {}
-            ELSE IF EpochStartAmbiguous(ecn, e) THEN {"epoch-empty-start"}
-            ELSE IF ans # ref THEN {"epoch-convention"} ELSE {"epoch-gap"}>>
+            IF ~bad THEN {} ELSE IF ans # ref THEN {"epoch-convention"} ELSE {"epoch-gap"}>>
   ELSE LET h == hw[f]
            after == IF Len(lf) - 1 = h THEN lf ELSE TruncLog(lf, h + 1)
            cut == \E c \in committed : c.o >= h + 1 /\ c.o < Len(lf) /\ lf[c.o + 1] = c.rec
